@@ -276,3 +276,21 @@ Proof.
     + right. subst rb xb. reflexivity.
   - right. reflexivity.
 Qed.
+
+From SM Require Import Dyn.
+
+(* handle() whose future is dropped at its b-th Pending: poisoned, or exactly the completed call *)
+Theorem handle_budget g gd d ev pl w b :
+  let hn := handle g gd d ev pl w None in
+  let hb := handle g gd d ev pl w (Some b) in
+  (ho_res hb = HAbandoned /\ ho_dyn hb = Build_dyn None /\ d_inner d <> None) \/ hb = hn.
+Proof.
+  cbn zeta. unfold handle. destruct (d_inner d) as [tm|] eqn:Ed; [|right; reflexivity].
+  destruct (event_variant gd ev) as [[[v l] p]|]; [|right; reflexivity].
+  destruct (find_arm gd (tm_state tm) v) as [a|]; [|right; reflexivity].
+  destruct (methods_of g (ga_src a) (ga_method a)) as [|gm [|gm2 r]]; try (right; reflexivity).
+  destruct (negb (Bool.eqb (ga_aw a) (gm_async gm))); [right; reflexivity|].
+  destruct (run_method_budget gm tm (if ga_binds_pl a then pl else None) w b) as [(Hr & _ & _)|He].
+  - left. rewrite Hr. cbn. repeat split. discriminate.
+  - right. rewrite He. reflexivity.
+Qed.
